@@ -23,7 +23,7 @@ use kanidmd_lib::testkit::{setup_test, TestConfiguration};
 use kanidmd_lib::valueset::{ValueSet, ValueSetIutf8};
 use kanidmd_lib::verif_hooks::c24 as hook;
 use kanidmd_lib::verif_hooks::c24::{HookAcp, HookAcps, HookReceiver};
-use kanidmd_lib::{filter_all, filter_rec};
+use kanidmd_lib::filter_all;
 use kvh::*;
 use std::collections::{BTreeMap, BTreeSet};
 use std::panic::AssertUnwindSafe;
@@ -186,6 +186,8 @@ fn uu(n: u64) -> Uuid {
 struct Tab {
     attrs: Vec<Attribute>,
     classes: Vec<String>,
+    /// classes met on stored entries that are not in the table: id = 1000 + index
+    extra: std::cell::RefCell<Vec<String>>,
 }
 impl Tab {
     fn new() -> Self {
@@ -196,20 +198,35 @@ impl Tab {
                 s.to_string()
             })
             .collect();
-        Tab { attrs: attr_table(), classes }
+        Tab { attrs: attr_table(), classes, extra: Default::default() }
     }
     fn attr(&self, a: u64) -> Attribute {
         self.attrs[a as usize].clone()
     }
-    fn class(&self, k: u64) -> &str {
-        &self.classes[k as usize]
+    fn class(&self, k: u64) -> String {
+        if k >= 1000 {
+            self.extra.borrow()[(k - 1000) as usize].clone()
+        } else {
+            self.classes[k as usize].clone()
+        }
+    }
+    fn class_id(&self, c: &str) -> u64 {
+        if let Some(k) = self.classes.iter().position(|k| k == c) {
+            return k as u64;
+        }
+        let mut x = self.extra.borrow_mut();
+        if let Some(k) = x.iter().position(|k| k == c) {
+            return 1000 + k as u64;
+        }
+        x.push(c.to_string());
+        1000 + (x.len() - 1) as u64
     }
     fn is_refer(a: u64) -> bool {
         a == A_MEMBER || a == A_MEMBEROF || a == A_EMB || a == A_SYNCPARENT
     }
     fn value(&self, a: u64, v: u64) -> Value {
         if a == A_CLASS {
-            Value::new_iutf8(self.class(v))
+            Value::new_iutf8(&self.class(v))
         } else if a == A_UUID {
             Value::Uuid(uu(v))
         } else if a == A_NAME {
@@ -222,7 +239,7 @@ impl Tab {
     }
     fn pvalue(&self, a: u64, v: u64) -> PartialValue {
         if a == A_CLASS {
-            PartialValue::new_iutf8(self.class(v))
+            PartialValue::new_iutf8(&self.class(v))
         } else if a == A_UUID {
             PartialValue::Uuid(uu(v))
         } else if a == A_NAME {
@@ -477,7 +494,8 @@ fn real_mods(t: &Tab, ml: &[MMod]) -> Vec<Modify> {
             MMod::Assert(a, v) => Modify::Assert(t.attr(*a), t.pvalue(*a, *v)),
             MMod::Set(a, vs) => {
                 let set: ValueSet = if *a == A_CLASS {
-                    let b: ValueSet = ValueSetIutf8::from_iter(vs.iter().map(|k| t.class(*k))).expect("non-empty class set");
+                    let names: Vec<String> = vs.iter().map(|k| t.class(*k)).collect();
+                    let b: ValueSet = ValueSetIutf8::from_iter(names.iter().map(|s| s.as_str())).expect("non-empty class set");
                     b
                 } else {
                     let mut it = vs.iter();
@@ -956,6 +974,353 @@ fn emit_fn(sink: &mut Sink, inp: &Input, res: bool) {
     sink.case(coq, txt_of("fn", inp, if res { "allowed" } else { "denied" }), nontrivial);
 }
 
+
+// ------------------------------------------------------------------ server level
+const GS: u64 = 9; // the group that the installed search profile receives
+fn t_uuid(k: u64) -> u64 {
+    ANON + 4000 + k
+}
+fn mk(avas: Vec<(Attribute, Value)>) -> Entry<EntryInit, EntryNew> {
+    let mut e: Entry<EntryInit, EntryNew> = Entry::new();
+    for (a, v) in avas {
+        e.add_ava(a, v);
+    }
+    e
+}
+fn person(name: &str, u: u64) -> Entry<EntryInit, EntryNew> {
+    mk(vec![
+        (Attribute::Class, EntryClass::Object.to_value()),
+        (Attribute::Class, EntryClass::Account.to_value()),
+        (Attribute::Class, EntryClass::Person.to_value()),
+        (Attribute::Name, Value::new_iname(name)),
+        (Attribute::DisplayName, Value::new_utf8s(name)),
+        (Attribute::Uuid, Value::Uuid(uu(u))),
+    ])
+}
+fn group(name: &str, u: u64) -> Entry<EntryInit, EntryNew> {
+    mk(vec![
+        (Attribute::Class, EntryClass::Object.to_value()),
+        (Attribute::Class, EntryClass::Group.to_value()),
+        (Attribute::Name, Value::new_iname(name)),
+        (Attribute::Uuid, Value::Uuid(uu(u))),
+    ])
+}
+
+/// population committed once; returns the target uuids and the time for later transactions
+fn populate(rt: &tokio::runtime::Runtime, qs: &QueryServer) -> (Vec<Uuid>, Duration) {
+    let ct0 = duration_from_epoch_now();
+    let mut wr = rt.block_on(qs.write(ct0)).expect("write");
+    let mut es = vec![];
+    for g in 0..5 {
+        es.push(group(&format!("g{g}"), group_uuid(g)));
+    }
+    es.push(group("gsearch", group_uuid(GS)));
+    for k in 0..4 {
+        es.push(person(&format!("p{k}"), person_uuid(k)));
+    }
+    wr.internal_create(es).expect("create receivers");
+    let mut tp = person("n0", t_uuid(0));
+    tp.add_ava(Attribute::Description, Value::new_utf8s("d"));
+    let mut tg = group("n1", t_uuid(1));
+    tg.add_ava(Attribute::EntryManagedBy, Value::Refer(uu(group_uuid(1))));
+    tg.add_ava(Attribute::Member, Value::Refer(uu(person_uuid(0))));
+    let mut tsa = mk(vec![
+        (Attribute::Class, EntryClass::Object.to_value()),
+        (Attribute::Class, EntryClass::Account.to_value()),
+        (Attribute::Class, EntryClass::ServiceAccount.to_value()),
+        (Attribute::Name, Value::new_iname("n2")),
+        (Attribute::DisplayName, Value::new_utf8s("n2")),
+        (Attribute::Uuid, Value::Uuid(uu(t_uuid(2)))),
+    ]);
+    tsa.add_ava(Attribute::EntryManagedBy, Value::Refer(uu(person_uuid(1))));
+    let mut tg2 = group("n3", t_uuid(3));
+    tg2.add_ava(Attribute::EntryManagedBy, Value::Refer(uu(person_uuid(2))));
+    let sync_src = mk(vec![
+        (Attribute::Class, EntryClass::Object.to_value()),
+        (Attribute::Class, EntryClass::SyncAccount.to_value()),
+        (Attribute::Name, Value::new_iname("syncsrc")),
+        (Attribute::Uuid, Value::Uuid(uu(sync_uuid(0)))),
+    ]);
+    let mut tsync = person("n4", t_uuid(4));
+    tsync.add_ava(Attribute::Class, EntryClass::SyncObject.to_value());
+    tsync.add_ava(Attribute::SyncParentUuid, Value::Refer(uu(sync_uuid(0))));
+    wr.internal_create(vec![tp, tg, tsa, tg2, sync_src]).expect("create targets");
+    wr.internal_create(vec![tsync]).expect("create sync target");
+    wr.internal_create(vec![person("tomb", t_uuid(5))]).expect("create tomb");
+    wr.internal_delete_uuid(uu(t_uuid(5))).expect("delete tomb");
+    wr.commit().expect("commit");
+    // 8 days later the recycled entry becomes a tombstone
+    let ct1 = ct0 + Duration::from_secs(8 * 86400);
+    let mut wr = rt.block_on(qs.write(ct1)).expect("write");
+    wr.purge_recycled().expect("purge_recycled");
+    wr.commit().expect("commit");
+    let ct2 = ct1 + Duration::from_secs(10);
+    let mut wr = rt.block_on(qs.write(ct2)).expect("write");
+    let mut trg = group("recg", t_uuid(7));
+    trg.add_ava(Attribute::EntryManagedBy, Value::Refer(uu(person_uuid(3))));
+    wr.internal_create(vec![person("rec", t_uuid(6)), trg]).expect("create rec");
+    wr.internal_delete_uuid(uu(t_uuid(6))).expect("delete rec");
+    wr.internal_delete_uuid(uu(t_uuid(7))).expect("delete recg");
+    wr.commit().expect("commit");
+    let mut targets: Vec<Uuid> = (0..8).filter(|k| *k != 5 || true).map(|k| uu(t_uuid(k))).collect();
+    targets.extend([UUID_DOMAIN_INFO, UUID_SYSTEM_CONFIG, UUID_IDM_ADMINS, UUID_ANONYMOUS, UUID_IDM_ALL_PERSONS, UUID_ADMIN]);
+    (targets, ct2 + Duration::from_secs(10))
+}
+
+/// the part of a stored entry the model looks at: the attributes of the table
+fn project(t: &Tab, names: &mut Intern<String>, e: &EntrySealedCommitted) -> MEntry {
+    let mut m = MEntry::new();
+    for (id, a) in t.attrs.iter().enumerate() {
+        let id = id as u64;
+        let Some(vs) = e.get_ava_set(a) else { continue };
+        let mut out = BTreeSet::new();
+        if id == A_CLASS {
+            for c in vs.as_iutf8_set().expect("class is iutf8") {
+                out.insert(t.class_id(c));
+            }
+        } else if id == A_UUID {
+            out.insert(e.get_uuid().as_u128() as u64);
+        } else if id == A_NAME {
+            let n = vs.to_proto_string_single().unwrap_or_default();
+            match n.strip_prefix('n').and_then(|d| d.parse::<u64>().ok()) {
+                Some(k) if k < 100 => out.insert(k),
+                _ => out.insert(1000 + names.id(&format!("name:{n}"))),
+            };
+        } else if Tab::is_refer(id) {
+            for u in vs.as_refer_set().expect("refer set") {
+                assert!(u.as_u128() < (1u128 << 63));
+                out.insert(u.as_u128() as u64);
+            }
+        } else {
+            out.insert(0);
+        }
+        m.insert(id, out);
+    }
+    m
+}
+
+fn read_target(wr: &mut QueryServerWriteTransaction<'_>, u: Uuid) -> Option<Arc<EntrySealedCommitted>> {
+    wr.internal_search(filter_all!(f_eq(Attribute::Uuid, PartialValue::Uuid(u))))
+        .ok()
+        .and_then(|mut v| v.pop())
+}
+
+const SRV_ATTRS: &[u64] = &[A_CLASS, A_CLASS, A_NAME, A_DISPLAYNAME, A_DESCRIPTION, A_MEMBER, A_EMB, 45];
+fn gen_srv_mod(rng: &mut Rng, i: &MIdent, e: &MEntry) -> MMod {
+    let a = *rng.pick(SRV_ATTRS);
+    match rng.below(10) {
+        0 | 1 | 2 => MMod::Present(a, gen_value(rng, i, a)),
+        3 | 4 => {
+            // remove a value that is there, or a random one
+            let v = match (e.get(&a), rng.chance(2, 3)) {
+                (Some(vs), true) => *rng.pick(&vs.iter().cloned().collect::<Vec<_>>()),
+                _ => gen_value(rng, i, a),
+            };
+            MMod::Removed(a, v)
+        }
+        5 | 6 => MMod::Purged(if rng.chance(1, 8) { A_CLASS } else { *rng.pick(&[A_DISPLAYNAME, A_DESCRIPTION, A_MEMBER, A_EMB, 45]) }),
+        7 => MMod::Assert(a, gen_value(rng, i, a)),
+        _ => {
+            if a == A_CLASS {
+                let mut vs = e.get(&A_CLASS).cloned().unwrap_or_default();
+                vs.retain(|k| *k < 1000);
+                if rng.chance(1, 2) && vs.len() > 1 {
+                    let k: Vec<u64> = vs.iter().cloned().collect();
+                    vs.remove(rng.pick(&k));
+                }
+                if rng.chance(2, 3) {
+                    vs.insert(*rng.pick(&[K_POSIXACCOUNT, K_MEMBEROF, K_SYSTEM, K_RECYCLED, K_PERSON, K_ACCOUNT, K_SYNCOBJECT]));
+                }
+                if vs.is_empty() {
+                    vs.insert(K_OBJECT);
+                }
+                MMod::Set(a, vs.into_iter().collect())
+            } else {
+                MMod::Set(a, vec![gen_value(rng, i, a)])
+            }
+        }
+    }
+}
+
+#[derive(Clone, Copy, Debug, PartialEq)]
+enum SRes {
+    Ok,
+    Denied,
+    NoMatch,
+    Other,
+}
+fn classify<T>(r: &Result<T, OperationError>) -> SRes {
+    match r {
+        Ok(_) => SRes::Ok,
+        Err(OperationError::AccessDenied) => SRes::Denied,
+        Err(OperationError::NoMatchingEntries) => SRes::NoMatch,
+        Err(e) => {
+            eprintln!("C24-OTHER-ERROR {e:?}");
+            SRes::Other
+        }
+    }
+}
+
+fn run_srv_cases(
+    rt: &tokio::runtime::Runtime,
+    qs: &QueryServer,
+    t: &Tab,
+    rng: &mut Rng,
+    sink: &mut Sink,
+    n: u64,
+) {
+    let (targets, ct) = populate(rt, qs);
+    let mut names: Intern<String> = Intern::new();
+    let mut done = 0;
+    let mut new_uuid = 0u64;
+    while done < n {
+        // identity: users and sync agents only (the property's subjects)
+        let mut ident = gen_ident(rng);
+        if !matches!(ident.origin, Origin::User | Origin::Synch) {
+            ident.origin = Origin::User;
+            ident.uuid = person_uuid(rng.below(4));
+        }
+        if ident.origin == Origin::User && rng.chance(6, 7) {
+            ident.memberof.push(group_uuid(GS));
+            ident.memberof.sort();
+            ident.memberof.dedup();
+        }
+        let mut wr = rt.block_on(qs.write(ct)).expect("write");
+        let schema = wr.get_schema();
+        let opk = rng.below(20);
+        // revive mostly aims at the recycled targets, the others mostly at ordinary entries
+        let target = if (7..10).contains(&opk) && rng.chance(3, 4) {
+            targets[rng.range(6, 7) as usize]
+        } else if rng.chance(1, 2) {
+            targets[rng.below(5) as usize]
+        } else {
+            *rng.pick(&targets)
+        };
+        let before = read_target(&mut wr, target).expect("target exists");
+        let (es, op): (Vec<MEntry>, MOp) = if opk < 4 {
+            // create: a fresh person or group, sometimes with a protected class / built-in uuid
+            new_uuid += 1;
+            let mut e = MEntry::new();
+            let grp = rng.chance(1, 3);
+            let mut cls: BTreeSet<u64> = if grp { [K_OBJECT, K_GROUP].into_iter().collect() } else { [K_OBJECT, K_ACCOUNT, K_PERSON].into_iter().collect() };
+            if rng.chance(1, 6) {
+                cls.insert(*rng.pick(&[K_SYSTEM, K_RECYCLED, K_SYNCOBJECT, K_DYNGROUP, K_POSIXACCOUNT]));
+            }
+            e.insert(A_CLASS, cls);
+            e.insert(A_NAME, [10 + new_uuid].into_iter().collect());
+            if !grp {
+                e.insert(A_DISPLAYNAME, [0].into_iter().collect());
+            }
+            if rng.chance(3, 4) {
+                let u = if rng.chance(1, 8) { 0xffff_ff00_1000 + new_uuid } else { ANON + 9000 + new_uuid };
+                e.insert(A_UUID, [u].into_iter().collect());
+            }
+            if rng.chance(1, 4) {
+                e.insert(A_DESCRIPTION, [0].into_iter().collect());
+            }
+            (vec![e], MOp::Create)
+        } else {
+            let me = project(t, &mut names, &before);
+            let op = if opk < 7 {
+                MOp::Delete
+            } else if opk < 10 {
+                MOp::Revive
+            } else {
+                MOp::Modify((0..rng.range(1, 2)).map(|_| gen_srv_mod(rng, &ident, &me)).collect())
+            };
+            (vec![me], op)
+        };
+        let macps = gen_acps(rng, &ident, &es, &op);
+        let mut acps = real_acps(t, schema, &macps);
+        acps.search = vec![HookAcp {
+            receiver: HookReceiver::Group([uu(group_uuid(GS))].into_iter().collect()),
+            target: Some(filter_all!(f_pres(Attribute::Class)).validate(schema).expect("filter")),
+            s1: t.attrs.clone(),
+            s2: vec![],
+            c1: vec![],
+            c2: vec![],
+        }];
+        hook::install_in_txn(&mut wr, &acps);
+        let rident = real_ident(&ident, sealed(t, &user_mentry(&ident)));
+        let tf = filter_all!(f_eq(Attribute::Uuid, PartialValue::Uuid(target))).validate(schema).expect("filter");
+        let (res, unchanged) = match &op {
+            MOp::Create => {
+                let entries = vec![real_entry(t, &es[0])];
+                let ce = CreateEvent { ident: rident, entries, return_created_uuids: false };
+                let r = guarded(AssertUnwindSafe(|| classify(&wr.create(&ce))));
+                let r = r.unwrap_or(SRes::Ok);
+                // on failure nothing with the requested uuid / name exists
+                let gone = match es[0].get(&A_UUID).and_then(|s| s.iter().next()) {
+                    Some(u) => read_target(&mut wr, uu(*u)).is_none(),
+                    None => {
+                        let n = format!("n{}", es[0][&A_NAME].iter().next().expect("name"));
+                        wr.internal_search(filter_all!(f_eq(Attribute::Name, PartialValue::new_iname(&n))))
+                            .map(|v| v.is_empty())
+                            .unwrap_or(false)
+                    }
+                };
+                (r, gone)
+            }
+            other => {
+                let r = match other {
+                    MOp::Modify(ml) => {
+                        let Ok(modlist) = ModifyList::new_list(real_mods(t, ml)).validate(schema) else {
+                            sink.bump("srv_skipped_invalid_modlist");
+                            continue;
+                        };
+                        let me = ModifyEvent { ident: rident, filter: tf.clone(), filter_orig: tf.clone(), modlist };
+                        guarded(AssertUnwindSafe(|| classify(&wr.modify(&me))))
+                    }
+                    MOp::Delete => {
+                        let de = DeleteEvent { ident: rident, filter: tf.clone(), filter_orig: tf.clone() };
+                        guarded(AssertUnwindSafe(|| classify(&wr.delete(&de))))
+                    }
+                    _ => {
+                        let re = ReviveRecycledEvent::from_parts(
+                            rident,
+                            &filter_all!(f_eq(Attribute::Uuid, PartialValue::Uuid(target))),
+                            &wr,
+                        )
+                        .expect("revive event");
+                        guarded(AssertUnwindSafe(|| classify(&wr.revive_recycled(&re))))
+                    }
+                };
+                // a panic counts as success: it then has to satisfy the specification
+                let r = r.unwrap_or(SRes::Ok);
+                let after = read_target(&mut wr, target);
+                (r, after.as_deref() == Some(before.as_ref()))
+            }
+        };
+        drop(wr); // never committed
+        let inp = Input { ident, acps: macps, es, op };
+        let rs = match res {
+            SRes::Ok => "SOk",
+            SRes::Denied => "SDenied",
+            SRes::NoMatch => "SNoMatch",
+            SRes::Other => "SOther",
+        };
+        let coq = format!(
+            "(CSrv {} {} {} {} {} {})%N",
+            c_ident(&inp.ident),
+            c_acps(&inp.acps),
+            clist(&inp.es, c_entry),
+            c_op(&inp.op),
+            rs,
+            cbool(unchanged)
+        );
+        let opn = match inp.op {
+            MOp::Modify(_) => "modify",
+            MOp::Create => "create",
+            MOp::Delete => "delete",
+            MOp::Revive => "revive",
+        };
+        sink.bump(&format!("srv_{}_{}", opn, rs));
+        let nontrivial = inp.ident.origin == Origin::User && inp.ident.scope == Scope::RW;
+        sink.case(coq, txt_of("srv", &inp, &format!("{rs} unchanged={unchanged}")), nontrivial);
+        done += 1;
+    }
+}
+
 fn main() {
     let args = parse_args();
     let mut rng = Rng::new(args.seed);
@@ -966,7 +1331,7 @@ fn main() {
     let qs = rt.block_on(setup_test(TestConfiguration::default()));
 
     // ---------------- function level
-    let n_fn = if args.thorough { 60000 } else { 9000 };
+    let n_fn = if args.thorough { 40000 } else { 7000 };
     {
         let mut rd = rt.block_on(qs.read()).expect("read txn");
         let schema = rd.get_schema();
@@ -986,7 +1351,8 @@ fn main() {
         }
         let _ = &mut rd;
     }
-    let _ = (filter_rec!(f_pres(Attribute::Class)), ReviveRecycledEvent::from_parts);
-    let _ = ModifyList::new_list(vec![]);
+    // ---------------- server level
+    let n_srv = if args.thorough { 5000 } else { 900 };
+    run_srv_cases(&rt, &qs, &t, &mut rng, &mut sink, n_srv);
     sink.finish();
 }
